@@ -32,7 +32,18 @@ void sequential(std::uint64_t total)
     sinks_t sinks;
     int rootlvl = static_cast<int>(g.below(7));
     vf::extend_case(" root=%d", rootlvl);
-    l::context ctx{toopt(rootlvl), make_streams(sinks)};
+    // every third history has level streams without a formatter or with a custom one
+    stream_kinds kinds{};
+    if (h % 3 == 2)
+    {
+      vf::extend_case(" streams=");
+      for (int &k : kinds)
+      {
+        k = static_cast<int>(g.below(3));
+        vf::extend_case("%d", k);
+      }
+    }
+    l::context ctx{toopt(rootlvl), make_streams(sinks, kinds)};
     std::vector<std::pair<Loc, int>> sets;
     auto model = [&](Loc const &loc) {
       int v = rootlvl;
@@ -167,7 +178,12 @@ void sequential(std::uint64_t total)
           else if (should)
           {
             // documented composition: object formatter( location prefixes root->leaf + level formatter(message) )
-            std::string inner = std::string(l::level_to_string(static_cast<l::level>(lv))) + ": " + msg + "\n";
+            int const kind = kinds[static_cast<std::size_t>(lv)];
+            std::string inner = kind == 0   ? std::string(l::level_to_string(static_cast<l::level>(lv))) + ": " + msg + "\n"
+                                : kind == 1 ? msg
+                                            : "[" + msg + "]";
+            if (kind == 1)
+              VF_COUNT("log/seq/log-through-a-level-stream-without-formatter");
             std::string pre;
             for (auto const &n : ob.loc)
               pre += n + ": ";
@@ -641,7 +657,7 @@ void concurrent(std::uint64_t total)
 void body()
 {
   for (char const *b : {"log/seq/set", "log/seq/set-empty-level", "log/seq/get", "log/seq/create-by-location", "log/seq/create-by-context",
-                        "log/seq/create-by-parent", "log/seq/object-level", "log/seq/log-emitted", "log/seq/log-suppressed",
+                        "log/seq/create-by-parent", "log/seq/object-level", "log/seq/log-emitted", "log/seq/log-through-a-level-stream-without-formatter", "log/seq/log-suppressed",
                         "log/conc/histories-checked", "log/conc/overlap/set-set", "log/conc/overlap/set-get", "log/conc/overlap/set-create",
                         "log/conc/overlap/create-create", "log/conc/creation-storm-histories", "log/conc/probe/locations-with-several-objects", "log/conc/overlap/set-lockfree-read", "log/conc/lockfree-reads-checked",
                         "log/conc/quiescent-checks", "log/conc/quiescent-object-levels"})
